@@ -44,6 +44,8 @@ CHECKS.update({
             "4/C14", "All draws enumerated for every judged (input, format, srbits); inputs sampled.", "torch.randint is the only random source"),
     "C16": ("differential monitor on generated programs: real unit_scale() (TorchDynamo) vs an independent DSL interpreter applying the User-Guide recipe (networkx residual analysis); re-initialisation and non-destructiveness checks; mechanism attribution by alternative recipes",
             "4/C16", "Held on generated programs (1-16 ops, 0-4 residual blocks); programs that Dynamo splits are excluded and counted.", "unit_scaling.functional as established by C01-C06"),
+    "C15": ("differential monitor on generated programs: real simulate_format/simulate_fp8 (TorchDynamo) and the backend on hand-built FX graphs vs an independent DSL interpreter with hand-written straight-through quantisers; FPFormat.quantise call log; pinned random source; lossless pair bit-identity",
+            "4/C15", "Held on generated programs and format pairs (one open known finding: root module that is itself a torch.nn layer).", "FPFormat.quantise as established by C13/C14"),
 })
 
 PENDING = {}
